@@ -48,6 +48,26 @@ type c03Sim struct {
 	Lossy          bool
 	gotAny         []map[int]bool // node -> set -> at least one message of that set was delivered to it
 	trigDone       []map[int]bool // node -> set -> already triggered
+	// nodes that do not have the eon's key generation result yet (still working through the last DKG blocks):
+	// what reaches them now is looked at by their validators and stays pending (gossip offers it again later)
+	Unready    map[int]bool
+	es         *eonSetup
+	EarlySeen  int
+	lateChoice []int
+}
+
+// c03Late: nodes listed here are built without the key generation result; makeReady writes it.
+var c03Late []int
+
+func (s *c03Sim) makeReady(i int) {
+	if !s.Unready[i] {
+		return
+	}
+	if err := writeDKGResult(context.Background(), s.Nodes[i].DB, s.es, i, true); err != nil {
+		panic(err)
+	}
+	delete(s.Unready, i)
+	s.logf("k%d has the key generation result now", i)
 }
 
 const c03CfgIdx = 3
@@ -58,12 +78,13 @@ const c03CfgIdx = 3
 // and must not influence the requests after.
 func newC03Sim(fl flavour, n, th int, sets [][][]byte, fail failFn, earlyAsk ...int) *c03Sim {
 	ctx := context.Background()
-	s := &c03Sim{Fl: fl, N: n, T: th, Fix: getEonFixture(n, th), Sets: sets, fail: fail}
+	s := &c03Sim{Fl: fl, N: n, T: th, Fix: getEonFixture(n, th), Sets: sets, fail: fail, Unready: map[int]bool{}}
 	members := make([]int, n)
 	for i := range members {
 		members[i] = i
 	}
 	es := &eonSetup{KeyperConfigIndex: c03CfgIdx, Eon: 30, Activation: 100, Members: members, Threshold: th, Keys: s.Fix.Real}
+	s.es = es
 	early := map[int]bool{}
 	for _, i := range earlyAsk {
 		early[i] = true
@@ -102,7 +123,13 @@ func newC03Sim(fl flavour, n, th int, sets [][][]byte, fail failFn, earlyAsk ...
 				panic(err)
 			}
 		}
-		if err := writeDKGResult(ctx, node.DB, es, i, true); err != nil {
+		late := false
+		for _, l := range c03Late {
+			late = late || (l == i && len(earlyAsk) == 0)
+		}
+		if late {
+			s.Unready[i] = true
+		} else if err := writeDKGResult(ctx, node.DB, es, i, true); err != nil {
 			panic(err)
 		}
 		if len(earlyAsk) == 0 {
@@ -195,6 +222,7 @@ func (s *c03Sim) publish(from int, m p2pmsg.Message) {
 // trigger a node for identity set si through the real KeyShareHandler service.
 func (s *c03Sim) trigger(node, si int) {
 	ctx := context.Background()
+	s.makeReady(node)
 	n := s.Nodes[node]
 	ids := preimages(s.Sets[si])
 	if s.Fl == flGnosis {
@@ -239,6 +267,16 @@ func (s *c03Sim) deliver(k int, keep bool) {
 		return
 	}
 	n := s.Nodes[p.To]
+	if s.Unready[p.To] {
+		// too early for this receiver: whatever its validators say now must not matter later
+		if !keep {
+			s.Pending = append(s.Pending, p)
+		}
+		_ = n.Validate(p.Topic, p.Data)
+		s.EarlySeen++
+		s.logf("early %s->k%d (no key generation result yet)", p.Label, p.To)
+		return
+	}
 	dup := ""
 	if keep {
 		dup = "+dup"
@@ -448,7 +486,14 @@ func runC03Schedule(rt *rapid.T, rec *Recorder, fl flavour) {
 	if rapid.IntRange(0, 3).Draw(rt, "restartedEon") == 0 {
 		earlyAsk = rapid.SliceOfNDistinct(rapid.IntRange(0, n-1), 1, n, rapid.ID[int]).Draw(rt, "earlyAsk")
 	}
+	c03Late = nil
+	readyBy := 0
+	if len(earlyAsk) == 0 && rapid.IntRange(0, 3).Draw(rt, "lateReceivers") == 0 {
+		c03Late = rapid.SliceOfNDistinct(rapid.IntRange(0, n-1), 1, n, rapid.ID[int]).Draw(rt, "late")
+		readyBy = rapid.IntRange(1, 12).Draw(rt, "readyBy")
+	}
 	sim := newC03Sim(fl, n, th, sets, func(sig, f string, a ...any) { fatalf(rt, sig, f, a...) }, earlyAsk...)
+	c03Late = nil
 	defer sim.Close()
 	// which keypers are triggered, per identity set
 	triggered := map[int][]int{}
@@ -486,6 +531,11 @@ func runC03Schedule(rt *rapid.T, rec *Recorder, fl flavour) {
 	ti := 0
 	dups := 0
 	for steps := 0; steps < 2000 && (ti < len(order) || len(sim.Pending) > 0); steps++ {
+		if steps >= readyBy {
+			for i := 0; i < n; i++ {
+				sim.makeReady(i)
+			}
+		}
 		if ti < len(order) && (len(sim.Pending) == 0 || rapid.IntRange(0, 2).Draw(rt, "doTrigger") == 0) {
 			tr := trigs[order[ti]]
 			ti++
@@ -522,6 +572,9 @@ func runC03Schedule(rt *rapid.T, rec *Recorder, fl flavour) {
 	if setsOverlap(sets) {
 		labels = append(labels, "requests-share-an-identity")
 	}
+	if sim.EarlySeen > 0 {
+		labels = append(labels, "copy-seen-before-receiver-had-the-key-generation-result")
+	}
 	if setRepeats(sets) {
 		labels = append(labels, "identity-repeated-in-request")
 	}
@@ -553,7 +606,7 @@ func seq(n int) []int {
 
 func TestC03_Schedules(t *testing.T) {
 	rec := recorder("C03")
-	rec.AddRule("n in {3,4,5} keyper nodes (core, Shutter-service or Gnosis flavour), every threshold, one eon with a successful DKG in every node's database (real schema on pgfake), 1-2 identity sets of 1-3 identities (Gnosis: one set, slot identity first, same current_decryption_trigger row on every triggered node, plus an access node); a generated subset of keypers (>= t, or occasionally t-1) is triggered through the real KeyShareHandler service; a generated schedule delivers / duplicates / drops pending (message, receiver) pairs (at most #triggered - t share messages dropped per receiver, keys messages never dropped) until quiescence; every publish and delivery goes through the real combined validators, handlers run only on accepted messages, handler outputs are published. Oracles: a publisher's and every honest receiver's (and the access node's) validators accept every honest message; no handler error/panic on an accepted message; at quiescence every node stores exactly the eon's keys for every identity iff >= t keypers were triggered; at least one keys message is published. non-trivial = some node completes t shares only after a duplicate / after a keys message arrived, or a share message was lost; distinct by full schedule")
+	rec.AddRule("n in {3,4,5} keyper nodes (core, Shutter-service or Gnosis flavour), every threshold, one eon with a successful DKG in every node's database (real schema on pgfake), 1-2 identity sets of 1-3 identities (Gnosis: one set, slot identity first, same current_decryption_trigger row on every triggered node, plus an access node); a generated subset of keypers (>= t, or occasionally t-1) is triggered through the real KeyShareHandler service; in a quarter of the cases some nodes get the eon's key generation result only after the first 1-12 steps and what reaches them before is only looked at by their validators and offered again later; a generated schedule delivers / duplicates / drops pending (message, receiver) pairs (at most #triggered - t share messages dropped per receiver, keys messages never dropped) until quiescence; every publish and delivery goes through the real combined validators, handlers run only on accepted messages, handler outputs are published. Oracles: a publisher's and every honest receiver's (and the access node's) validators accept every honest message; no handler error/panic on an accepted message; at quiescence every node stores exactly the eon's keys for every identity iff >= t keypers were triggered; at least one keys message is published. non-trivial = some node completes t shares only after a duplicate / after a keys message arrived, or a share message was lost; distinct by full schedule")
 	rec.Assume("pgfake; libp2p delivers only validator-accepted messages; Gnosis trigger rows are written by the harness the way triggerDecryption does (C19 covers that function)")
 	for _, fl := range []flavour{flCore, flService, flGnosis} {
 		fl := fl
